@@ -138,6 +138,8 @@ func signedVariants(d *world.DID, rng *rand.Rand) []*world.Op {
 	de("deactivate:valid", func(s *world.Spec) {})
 	de("deactivate:other-suffix", func(s *world.Spec) { s.SignedSfx = "EiOtherSuffix" })
 	de("deactivate:reveal-other-key", func(s *world.Spec) { s.RevealKey = d.Stranger(2) })
+	// the request reveals another key; the reveal value INSIDE the signed data is the signing key's own
+	de("deactivate:reveal-other-key-signed-reveal-own", func(s *world.Spec) { s.RevealKey, s.SignedReveal = d.Stranger(2), s.SignedKey })
 	ops = append(ops, d.Create)
 	cs := d.Create.Spec
 	cs.Tamper = world.TSwapDelta
